@@ -222,6 +222,11 @@ func (d *Driver) handleCallbacks(
 
 		return d.executeCallback(r.i, r.callbacks, r.b, r.fb, timeout)
 	case <-ctx.Done():
+		// wait for the reader goroutine to exit so that it can not read (and lose) any further
+		// device output once we have returned
+		for range c { //nolint:revive
+		}
+
 		return nil, fmt.Errorf("%w: timeout handling callbacks", util.ErrTimeoutError)
 	}
 }
